@@ -909,11 +909,11 @@ def isBareScalar : FieldDecl → Bool
 
 /-- the wrapper guarantee at ANY nesting depth: whatever `deserialize_single_field(f, v, name)`
     raises begins with `name` — for every declaration (collections of collections, positional
-    items, maps of arrays, inline structures, AnyOf / OneOf / AllOf / NotField, Enum, …), every
-    document value and every scratch state — EXCEPT a class reference given a dict (the nested
-    structure's error passes through unchanged) and the bare scalars (their own `_name`) -/
+    items, maps of arrays, nested and inline structures, AnyOf / OneOf / AllOf / NotField, Enum, …),
+    every document value and every scratch state — EXCEPT the bare scalars (their own `_name`).
+    Since /repo 8de2ad2 a class reference given a dict is no exception any more. -/
 theorem dHead_starts (O : Oracles) (opts : DeserOpts) (f : FieldDecl) (name : Text) (v : PyVal)
-    (hs : isBareScalar f = false) (hc : (isClassRef f && isDictVal v) = false) :
+    (hs : isBareScalar f = false) :
     startsWith name (dHead O opts f name v) = true := by
   have hhom : ∀ (ok : PyVal → Bool) (g : Text → PyVal → Text) (xs : List PyVal) (h : Text),
       dHeadHomog ok g name xs = some h → startsWith name h = true := by
@@ -950,7 +950,7 @@ theorem dHead_starts (O : Oracles) (opts : DeserOpts) (f : FieldDecl) (name : Te
     · simp only [hi]
       cases v <;> first
         | exact c18_startsWith_append _ _
-        | (simp [isClassRef, isDictVal, hi] at hc)
+        | exact c18_startsWith_self _
   case enumLit => exact c18_startsWith_self _
   case enumCls => exact c18_startsWith_self _
   all_goals exact c18_startsWith_append _ _
@@ -960,13 +960,12 @@ theorem isFlat_not_classRef (f : FieldDecl) (h : isFlatDecl f = true) : isClassR
   cases f <;> simp_all [isFlatDecl, isClassRef, isScalarDecl]
 
 /-- DESERIALIZATION, every declaration, any depth: every phase-one rejection site is `named` and
-    its text begins with ITS OWN top-level field's name — except exactly the site of the open
-    finding `no-path:nested-structure:deser-classref` (a top-level class reference given a dict),
-    which the model marks `nested` -/
+    its text begins with ITS OWN top-level field's name — with NO exception since /repo 8de2ad2
+    (before, a top-level class reference given a dict was the site of the finding
+    `no-path:nested-structure:deser-classref`) -/
 theorem p1SiteD_names_own_field (O : Oracles) (opts : DeserOpts) (ign : Bool)
     (scr : List (Option String)) (name : String) (f : FieldDecl) (v : PyVal) (s : P1Site)
-    (h : p1SiteD O opts ign scr name f v = some s)
-    (hx : (isClassRef f && isDictVal v) = false) :
+    (h : p1SiteD O opts ign scr name f v = some s) :
     s.kind = .named ∧ s.top = name ∧ s.namesOwnField = true := by
   unfold p1SiteD at h
   by_cases hf : isFlatDecl f = true
@@ -976,44 +975,19 @@ theorem p1SiteD_names_own_field (O : Oracles) (opts : DeserOpts) (ign : Bool)
     cases hd : deser O opts ign f v with
     | ok y => simp [hd] at h
     | error e =>
-      simp only [hd] at h
-      rw [hx] at h
-      simp only [Bool.false_eq_true, if_false, Option.some.injEq] at h
+      simp only [hd, Bool.false_eq_true, if_false, Option.some.injEq] at h
       subst h
       refine ⟨rfl, rfl, ?_⟩
       simp only [P1Site.namesOwnField]
       have hbare : isBareScalar f = false := by
         cases f <;> simp_all [isBareScalar, isFlatDecl, isScalarDecl, deser]
-      exact dHead_starts O opts f name.toList v hbare hx
+      exact dHead_starts O opts f name.toList v hbare
 
-/-- … and the excluded site is exactly where the model puts the finding: kind `nested`, no head -/
-theorem p1SiteD_nested_iff (O : Oracles) (opts : DeserOpts) (ign : Bool)
+/-- no site is of the former `nested` kind -/
+theorem p1SiteD_never_nested (O : Oracles) (opts : DeserOpts) (ign : Bool)
     (scr : List (Option String)) (name : String) (f : FieldDecl) (v : PyVal) (s : P1Site)
-    (h : p1SiteD O opts ign scr name f v = some s) :
-    s.kind = .nested ↔ (isClassRef f && isDictVal v) = true := by
-  constructor
-  · intro hk
-    cases hx : (isClassRef f && isDictVal v) with
-    | true => rfl
-    | false =>
-      have := (p1SiteD_names_own_field O opts ign scr name f v s h hx).1
-      rw [this] at hk
-      exact absurd hk (by decide)
-  · intro hx
-    unfold p1SiteD at h
-    have hnf : isFlatDecl f = false := by
-      cases hf : isFlatDecl f with
-      | false => rfl
-      | true => simp [isFlat_not_classRef f hf] at hx
-    simp only [hnf, Bool.false_eq_true, if_false] at h
-    cases hd : deser O opts ign f v with
-    | ok y => simp [hd] at h
-    | error e =>
-      simp only [hd] at h
-      rw [hx] at h
-      simp only [if_true, Option.some.injEq] at h
-      subst h
-      rfl
+    (h : p1SiteD O opts ign scr name f v = some s) : s.kind ≠ .nested := by
+  rw [(p1SiteD_names_own_field O opts ign scr name f v s h).1]; decide
 
 /-- a site exists exactly for the document values `deserialize_single_field` rejects (`deser`,
     Sem/Deser.lean, for the non-flat declarations; `p1Rejects` for the flat ones) -/
@@ -1030,15 +1004,15 @@ theorem p1SiteD_isSome (O : Oracles) (opts : DeserOpts) (ign : Bool)
     | ok y => simp [isOk]
     | error e =>
       simp only [isOk]
-      cases (isClassRef f && isDictVal v) <;> rfl
+      rfl
 
-/-- every phase-one site of a document, for a class of ANY declarations: it belongs to a declared
-    field and either begins with that field's own name or is the `nested` site of a class reference -/
+/-- every phase-one site of a document, for a class of ANY declarations (collections at any depth,
+    nested and inline structures, multi-field wrappers, …): it belongs to a declared field and its
+    text begins with that field's own name -/
 theorem p1SitesD_name_fields (O : Oracles) (opts : DeserOpts) (ign : Bool)
     (scr : List (String × List (Option String))) (doc : List (String × PyVal))
     (fields : List (String × FieldDecl)) (s : P1Site) (h : s ∈ p1SitesD O opts ign scr doc fields) :
-    ∃ nf ∈ fields, s.top = nf.1 ∧
-      ((s.kind = .named ∧ s.namesOwnField = true) ∨ (s.kind = .nested ∧ isClassRef nf.2 = true)) := by
+    ∃ nf ∈ fields, s.top = nf.1 ∧ s.kind = .named ∧ s.namesOwnField = true := by
   simp only [p1SitesD, List.mem_filterMap] at h
   obtain ⟨nf, hnf, hs⟩ := h
   refine ⟨nf, hnf, ?_⟩
@@ -1048,38 +1022,8 @@ theorem p1SitesD_name_fields (O : Oracles) (opts : DeserOpts) (ign : Bool)
     simp only [hl] at hs
     split at hs
     · simp at hs
-    · cases hx : (isClassRef nf.2 && isDictVal v) with
-      | false =>
-        have := p1SiteD_names_own_field O opts ign _ nf.1 nf.2 v s hs hx
-        exact ⟨this.2.1, Or.inl ⟨this.1, this.2.2⟩⟩
-      | true =>
-        have hk := (p1SiteD_nested_iff O opts ign _ nf.1 nf.2 v s hs).2 hx
-        simp only [Bool.and_eq_true] at hx
-        refine ⟨?_, Or.inr ⟨hk, hx.1⟩⟩
-        unfold p1SiteD at hs
-        have hnf' : isFlatDecl nf.2 = false := by
-          cases hf : isFlatDecl nf.2 with
-          | false => rfl
-          | true => simp [isFlat_not_classRef nf.2 hf] at hx
-        simp only [hnf', Bool.false_eq_true, if_false] at hs
-        cases hd : deser O opts ign nf.2 v with
-        | ok y => simp [hd] at hs
-        | error e =>
-          simp only [hd] at hs
-          split at hs <;> (simp only [Option.some.injEq] at hs; subst hs; rfl)
-
-/-- … in particular: a class without class-reference fields (collections at any depth, inline
-    structures, multi-field wrappers, …) has every phase-one rejection named by its own field -/
-theorem p1SitesD_all_named (O : Oracles) (opts : DeserOpts) (ign : Bool)
-    (scr : List (String × List (Option String))) (doc : List (String × PyVal))
-    (fields : List (String × FieldDecl)) (hno : ∀ nf ∈ fields, isClassRef nf.2 = false)
-    (s : P1Site) (h : s ∈ p1SitesD O opts ign scr doc fields) :
-    ∃ nf ∈ fields, s.top = nf.1 ∧ s.kind = .named ∧ s.namesOwnField = true := by
-  obtain ⟨nf, hnf, htop, hk⟩ := p1SitesD_name_fields O opts ign scr doc fields s h
-  refine ⟨nf, hnf, htop, ?_⟩
-  cases hk with
-  | inl hk => exact hk
-  | inr hk => rw [hno nf hnf] at hk; exact absurd hk.2 (by decide)
+    · have := p1SiteD_names_own_field O opts ign _ nf.1 nf.2 v s hs
+      exact ⟨this.2.1, this.1, this.2.2⟩
 
 /-! ### the path through nested collections (constructor) -/
 
@@ -1159,8 +1103,8 @@ theorem deep_path_examples :
   decide
 
 /-- the same positions through deserialization (heads every message must begin with), the
-    positional and Map wrappers, and the site of the finding: a top-level class reference given a
-    dict is `nested` (no head); given a non-dict, and inside a collection, it is named -/
+    positional and Map wrappers, and the former site of the finding (fixed by /repo 8de2ad2): a
+    top-level class reference given a dict is named `inner…` like every other site -/
 theorem deep_deser_head_examples :
     let O : Oracles := exOracles
     let opts : DeserOpts := {}
@@ -1175,7 +1119,7 @@ theorem deep_deser_head_examples :
     dHead O opts (.mapOf str (arr (.integer {})) {}) "ma".toList (.dict [(.str "a", .list [.int 1, .str "x"])])
       = "ma_1".toList ∧
     dHead O opts (arr inner) "arr".toList (.list [.dict [(.str "x", .int 1)], badInner]) = "arr_1".toList ∧
-    p1SiteD O opts false [] "inner" inner badInner = some ⟨"inner", .nested, none, .typeErr⟩ ∧
+    p1SiteD O opts false [] "inner" inner badInner = some ⟨"inner", .named, some "inner".toList, .typeErr⟩ ∧
     p1SiteD O opts false [] "inner" inner (.int 5) =
       some ⟨"inner", .named, some "inner: Expected a dictionary; Got ".toList, .typeErr⟩ ∧
     p1SiteD O opts false [] "arr" (arr inner) (.list [badInner]) =
@@ -1438,7 +1382,7 @@ theorem locate_sound (O : Oracles) : ∀ (f : FieldDecl) (v : PyVal),
         obtain ⟨g, w, hr, hw⟩ := locate_sound O vf x hx.1
         rw [hx.2]
         exact ⟨g, w, Reaches.mapVal hm hr, hw⟩
-  | .struct c fields defaults, v, h => points_here O _ v _ h (by simp only [locate])
+  | .struct c fields defaults, v, h => points_here O _ v _ h (by simp only [locate]; split <;> rfl)
   | .anyOf fs, v, h => points_here O _ v _ h (by simp only [locate])
   | .oneOf fs, v, h => points_here O _ v _ h (by simp only [locate])
   | .allOf fs, v, h => points_here O _ v _ h (by simp only [locate])
@@ -1517,6 +1461,54 @@ theorem locate_sound_example :
 
 
 
+/-! ### the reported position is the FIRST rejected one -/
+
+theorem firstBad_min (O : Oracles) (f : FieldDecl) : ∀ (xs : List PyVal) (n i : Nat) (x : PyVal),
+    firstBad O f n xs = some (i, x) →
+      ∀ j, n + j < i → ∃ y, xs[j]? = some y ∧ isOk (validate O f y) = true := by
+  intro xs
+  induction xs with
+  | nil => intro n i x h; simp [firstBad] at h
+  | cons y ys ih =>
+    intro n i x h j hj
+    simp only [firstBad] at h
+    split at h
+    · rename_i hy
+      cases j with
+      | zero => exact ⟨y, rfl, hy⟩
+      | succ j' =>
+        obtain ⟨z, hz, hok⟩ := ih (n + 1) i x h j' (by omega)
+        exact ⟨z, by simpa using hz, hok⟩
+    · simp only [Option.some.injEq, Prod.mk.injEq] at h
+      omega
+
+/-- Array / Deque of `item`: when the path starts with `_<i>`, every element before `i` is accepted
+    by the item field — the message names the FIRST invalid element (at every level, by recursion
+    through `locate_sound`) -/
+theorem locate_seqOf_first (O : Oracles) (k : SeqKind) (item : FieldDecl) (sz : SizeOpts) (v : PyVal)
+    (i : Nat) (p : SufPath) (h : (locate O (.seqOf k item sz) v).suffix = .idx i :: p) :
+    ∃ xs, seqElems k v = some xs ∧ (∃ x, xs[i]? = some x ∧ isOk (validate O item x) = false ∧
+        p = (locate O item x).suffix) ∧
+      ∀ j, j < i → ∃ y, xs[j]? = some y ∧ isOk (validate O item y) = true := by
+  simp only [locate] at h
+  cases locSeqLike_cases (seqElems k v) sz.uniq sz (fun _ => true) (badOf O item (locate O item)) with
+  | inl h0 => rw [h0] at h; simp at h
+  | inr h1 =>
+    obtain ⟨xs, l, hxs, hb, hl⟩ := h1
+    rw [hl] at h
+    simp only [badOf, Option.map_eq_some_iff] at hb
+    obtain ⟨⟨i', x⟩, hfb, hl'⟩ := hb
+    rw [← hl'] at h
+    simp only [withSuffix, List.cons.injEq, Suffix.idx.injEq] at h
+    obtain ⟨hi, hp⟩ := h
+    subst hi
+    obtain ⟨j, hj, hx, hbad⟩ := firstBad_spec O item xs 0 i' x hfb
+    refine ⟨xs, hxs, ⟨x, ?_, hbad, hp.symm⟩, ?_⟩
+    · have : i' = j := by omega
+      rw [this]; exact hx
+    · intro j' hj'
+      exact firstBad_min O item xs 0 i' x hfb j' (by omega)
+
 /-! ### class names typedpy itself produces are in `[\w.]+` -/
 
 theorem all_alnum_fieldChars (W : Word) (hW : W.Sound) (t : Text) (h : t.all Char.isAlphanum = true) :
@@ -1571,6 +1563,442 @@ theorem bracket_class_name_loses_field :
     derivedName .partialOf none "Person".toList = "PartialPerson".toList ∧
     derivedName .allRequired none "Person".toList = "AllFieldsRequiredPerson".toList ∧
     derivedName .omit (some "Slim".toList) "Person".toList = "Slim".toList := by
+  decide
+
+
+
+/-! ### the parse inverts the formatter: exact value / problem recovery per shape -/
+
+/-- no occurrence of `pat` starts anywhere in `t` -/
+def noOcc (pat : Text) : Text → Bool
+  | [] => (dropPre pat []).isNone
+  | c :: cs => (dropPre pat (c :: cs)).isNone && noOcc pat cs
+
+theorem splitLast_none_of_noOcc (pat : Text) : ∀ (s : Text), noOcc pat s = true → splitLast pat s = none := by
+  intro s
+  induction s with
+  | nil => intro _; rfl
+  | cons c cs ih =>
+    intro h
+    simp only [noOcc, Bool.and_eq_true] at h
+    simp only [splitLast, ih h.2]
+    cases hd : dropPre pat (c :: cs) with
+    | none => rfl
+    | some r => simp [hd] at h
+
+theorem splitLast_prepend (pat : Text) (s a b : Text) (h : splitLast pat s = some (a, b)) :
+    ∀ p : Text, splitLast pat (p ++ s) = some (p ++ a, b) := by
+  intro p
+  induction p with
+  | nil => simpa using h
+  | cons c p ih => simp [splitLast, ih]
+
+theorem splitLast_cons_none (pat : Text) (c : Char) (cs : Text) (h : splitLast pat cs = none) :
+    splitLast pat (c :: cs) = (dropPre pat (c :: cs)).map fun r => ([], r) := by
+  rw [splitLast, h]
+
+theorem splitLast_semiGot_base (v : Text) (h : noOcc sSemiGot v = true) :
+    splitLast sSemiGot (sSemiGot ++ v) = some ([], v) := by
+  have h' : noOcc [';', ' ', 'G', 'o', 't', ' '] v = true := h
+  have h1 : noOcc sSemiGot (' ' :: 'G' :: 'o' :: 't' :: ' ' :: v) = true := by
+    simp [noOcc, dropPre, sSemiGot, h']
+  have h2 := splitLast_none_of_noOcc sSemiGot _ h1
+  have h3 : dropPre sSemiGot (sSemiGot ++ v) = some v := dropPre_append sSemiGot v
+  show splitLast sSemiGot (';' :: (' ' :: 'G' :: 'o' :: 't' :: ' ' :: v)) = some ([], v)
+  rw [splitLast_cons_none _ _ _ h2]
+  have h4 : dropPre sSemiGot (';' :: ' ' :: 'G' :: 'o' :: 't' :: ' ' :: v) = some v := h3
+  rw [h4]; rfl
+
+/-- regex 2 on `<problem>; Got <value>` splits exactly at the separator when the value contains no
+    `; Got ` (anything else — `;`, newlines, quotes — is allowed in both) -/
+theorem m23tail_gotLast_exact (v p : Text) (h : noOcc sSemiGot v = true) :
+    m23tail (p ++ (sSemiGot ++ v)) = (some v, p) := by
+  have := splitLast_prepend sSemiGot _ _ _ (splitLast_semiGot_base v h) p
+  simp only [m23tail, this, List.append_nil]
+
+/-- shape 2 (`<problem>; Got <v>`): value and (transformed) problem recovered exactly -/
+theorem render_parse_gotLast (W : Word) (hW : W.Sound) (f v p : Text) (hf : identOk W f = true)
+    (hG : p.head? ≠ some 'G') (hv : noOcc sSemiGot v = true) :
+    parseMsg W (f ++ ':' :: ' ' :: body .gotLast v p) = ⟨some f, some v, transform p⟩ := by
+  have hhead : (body .gotLast v p).head? ≠ some 'G' := by
+    cases p with
+    | nil => simp [body, sSemiGot]
+    | cons x xs => simpa [body] using hG
+  rw [parseMsg_header W hW _ _ hf, parseTail_line _ hhead]
+  simp only [body, m23tail_gotLast_exact v p hv]
+
+/-- shape 3 (`<problem>` alone): the whole rest is the problem, no value -/
+theorem render_parse_plain (W : Word) (hW : W.Sound) (f p : Text) (hf : identOk W f = true)
+    (hG : p.head? ≠ some 'G') (hp : noOcc sSemiGot p = true) :
+    parseMsg W (f ++ ':' :: ' ' :: body .plain [] p) = ⟨some f, none, transform p⟩ := by
+  rw [parseMsg_header W hW _ _ hf, parseTail_line _ (by simpa [body] using hG)]
+  simp only [body, m23tail, splitLast_none_of_noOcc sSemiGot p hp]
+
+/-- the (decidable) side condition under which the parse INVERTS the formatter, per shape; no
+    condition on newlines anywhere (the regexes are DOTALL) -/
+def cleanTexts : Shape → Text → Text → Bool
+  | .gotFirst, v, _ => noSemi v
+  | .gotLast, v, p => noOcc sSemiGot v && (p.head? != some 'G')
+  | .plain, _, p => noOcc sSemiGot p && (p.head? != some 'G')
+
+/-- what `ErrorInfo` should carry for a message: the full path, the value (none for the plain shape)
+    and the readable problem -/
+def msgInfo (m : Msg) : Parsed :=
+  ⟨some m.fullPath, (match m.shape with | .plain => none | _ => some m.value), transform m.problem⟩
+
+/-- THE PARSE INVERTS THE FORMATTER: for every class name / field path in `[\w.]+`, every shape and
+    all clean texts (newlines, quotes, non-ASCII, JSON … allowed), the regex cascade returns exactly
+    the path, the value and the readable problem that were rendered -/
+theorem render_parse_inverts (W : Word) (hW : W.Sound) (m : Msg) (hp : identOk W m.fullPath = true)
+    (hc : cleanTexts m.shape m.value m.problem = true) : parseMsg W m.render = msgInfo m := by
+  rw [render_eq]
+  obtain ⟨cls, path, shape, v, p⟩ := m
+  cases shape with
+  | gotFirst =>
+    simp only [cleanTexts] at hc
+    exact render_parse_gotFirst W hW _ v p hp hc
+  | gotLast =>
+    simp only [cleanTexts, Bool.and_eq_true, bne_iff_ne, ne_eq] at hc
+    exact render_parse_gotLast W hW _ v p hp hc.2 hc.1
+  | plain =>
+    simp only [cleanTexts, Bool.and_eq_true, bne_iff_ne, ne_eq] at hc
+    have := render_parse_plain W hW (Msg.fullPath ⟨cls, path, .plain, v, p⟩) p hp hc.2 hc.1
+    simpa [body, msgInfo] using this
+
+/-- the conditions are needed: a value containing `; Got ` moves the split of shape 2, a problem
+    starting with `Got ` is taken by regex 1 -/
+theorem unclean_texts_examples :
+    parseMsg asciiWord (Msg.render ⟨some "Foo".toList, "b".toList, .gotLast, "'x; Got y'".toList,
+      "Expected <class 'bool'>".toList⟩) =
+      ⟨some "Foo.b".toList, some "y'".toList, "Expected <class 'bool'>; Got 'x".toList⟩ ∧
+    parseMsg asciiWord (Msg.render ⟨some "Foo".toList, "b".toList, .gotLast, "1".toList,
+      "Got ; it".toList⟩) = ⟨some "Foo.b".toList, some [], "it; Got 1".toList⟩ := by
+  decide
+
+/-! ### `wrap_val`: a `str` value is rendered between single quotes -/
+
+/-- `wrap_val(v)` for a `str` -/
+def quoteStr (s : Text) : Text := '\'' :: (s ++ ['\''])
+
+theorem noSemi_quoteStr (s : Text) : noSemi (quoteStr s) = noSemi s := by
+  simp [noSemi, quoteStr, List.all_append]
+
+theorem dropPre_none_snoc (pat : Text) (q : Char) (hq : ∀ c ∈ pat, c ≠ q) :
+    ∀ t : Text, dropPre pat t = none → dropPre pat (t ++ [q]) = none := by
+  induction pat with
+  | nil => intro t h; cases t <;> simp [dropPre] at h
+  | cons a p ih =>
+    intro t h
+    cases t with
+    | nil =>
+      have : a ≠ q := hq a List.mem_cons_self
+      simp [dropPre, this]
+    | cons b t' =>
+      simp only [List.cons_append, dropPre] at h ⊢
+      split
+      · rename_i hab
+        simp only [hab, if_true] at h
+        exact ih (fun c hc => hq c (List.mem_cons_of_mem _ hc)) t' h
+      · rfl
+
+theorem noOcc_snoc (pat : Text) (hne : pat ≠ []) (q : Char) (hq : ∀ c ∈ pat, c ≠ q) :
+    ∀ t : Text, noOcc pat t = true → noOcc pat (t ++ [q]) = true := by
+  have hone : (dropPre pat [q]).isNone = true := by
+    cases pat with
+    | nil => exact absurd rfl hne
+    | cons a p =>
+      have : a ≠ q := hq a List.mem_cons_self
+      simp [dropPre, this]
+  have hnil : (dropPre pat []).isNone = true := by
+    cases pat with
+    | nil => exact absurd rfl hne
+    | cons a p => rfl
+  intro t
+  induction t with
+  | nil => intro _; simp [noOcc, hone, hnil]
+  | cons c cs ih =>
+    intro h
+    simp only [noOcc, Bool.and_eq_true, Option.isNone_iff_eq_none] at h
+    simp only [List.cons_append, noOcc, Bool.and_eq_true, Option.isNone_iff_eq_none]
+    exact ⟨dropPre_none_snoc pat q hq (c :: cs) h.1, ih h.2⟩
+
+/-- quoting adds no `; Got ` -/
+theorem noOcc_quoteStr (s : Text) (h : noOcc sSemiGot s = true) : noOcc sSemiGot (quoteStr s) = true := by
+  have hs := noOcc_snoc sSemiGot (by decide) '\'' (by decide) s h
+  simp only [quoteStr, noOcc, Bool.and_eq_true]
+  exact ⟨by simp [dropPre, sSemiGot], hs⟩
+
+/-- a rejected `str` value comes back exactly as `wrap_val` rendered it — for every path in
+    `[\w.]+`, every problem text, every string without `;` (value-first shape) resp. without
+    `; Got ` (value-last shape); newlines, quotes, `: `, non-ASCII are all allowed -/
+theorem str_value_roundtrip (W : Word) (hW : W.Sound) (f s p : Text) (hf : identOk W f = true) :
+    (noSemi s = true →
+      parseMsg W (f ++ ':' :: ' ' :: body .gotFirst (quoteStr s) p) = ⟨some f, some (quoteStr s), transform p⟩) ∧
+    (noOcc sSemiGot s = true → p.head? ≠ some 'G' →
+      parseMsg W (f ++ ':' :: ' ' :: body .gotLast (quoteStr s) p) = ⟨some f, some (quoteStr s), transform p⟩) :=
+  ⟨fun h => render_parse_gotFirst W hW f _ p hf (by rw [noSemi_quoteStr]; exact h),
+   fun h hG => render_parse_gotLast W hW f _ p hf hG (noOcc_quoteStr s h)⟩
+
+
+/-! ### typedpy's problem texts -/
+
+/-- every problem text the constructor of a flat / nested-collection field produces matches one
+    of these templates (all of them begin `Expected ` or `Does not match regular expression: `) -/
+theorem typedpy_problem_good (p : Text) (h : isTypedpyProblem p = true) (sh : Shape) (v : Text) :
+    goodTexts sh v p = true := by
+  have hhead : p.head? = some 'E' ∨ p.head? = some 'D' := by
+    simp only [isTypedpyProblem, Bool.or_eq_true] at h
+    cases h with
+    | inl h =>
+      cases hd : dropPre sExpected p with
+      | none => simp [startsWithT, hd] at h
+      | some r => rw [dropPre_eq _ _ _ hd]; left; rfl
+    | inr h =>
+      cases hd : dropPre sDoesNotMatch p with
+      | none => simp [startsWithT, hd] at h
+      | some r => rw [dropPre_eq _ _ _ hd]; right; rfl
+  cases p with
+  | nil => cases hhead <;> simp_all
+  | cons c cs =>
+    cases hhead with
+    | inl h1 => simp only [List.head?_cons, Option.some.injEq] at h1; subst h1; cases sh <;> simp [goodTexts]
+    | inr h1 => simp only [List.head?_cons, Option.some.injEq] at h1; subst h1; cases sh <;> simp [goodTexts]
+
+/-- texts taken from typedpy's templates are well-formed: `TextsWellFormed` is not an assumption
+    about the code but a consequence of the (corresponded) templates -/
+theorem templates_wellFormed (T : Texts) (h : ∀ s, isTypedpyProblem (T s).2 = true) : TextsWellFormed T :=
+  fun s => typedpy_problem_good _ (h s) _ _
+
+/-- the parameter-free templates, kernel-checked: each is a typedpy problem, starts neither with
+    `G` nor contains `; Got `, and `Expected <class 'int'>` & co. become readable -/
+theorem fixed_templates_examples :
+    (fixedProblems.all fun p => isTypedpyProblem p && noOcc sSemiGot p && (p.head? != some 'G')) = true ∧
+    transform "Expected <class 'float'>".toList = "Expected a decimal number".toList ∧
+    transform "Expected <class 'list'>".toList = "Expected an array".toList ∧
+    transform "Expected <class 'str'>".toList = "Expected a text value".toList := by
+  decide
+
+
+
+/-! ### the flat phase-one model agrees with `deser` (Sem/Deser.lean) -/
+
+theorem isOk_dValidated (r : R PyVal) (v : PyVal) : isOk (dValidated r v) = isOk r := by
+  cases r <;> rfl
+
+theorem isOk_toValueErr {α} (r : R α) : isOk (toValueErr r) = isOk r := by
+  cases r with
+  | ok y => rfl
+  | error e => cases e <;> rfl
+
+theorem isOk_mapE {α β} (g : α → R β) (xs : List α) : isOk (mapE g xs) = xs.all fun x => isOk (g x) := by
+  induction xs with
+  | nil => rfl
+  | cons x xs ih =>
+    simp only [mapE, List.all_cons]
+    cases hg : g x with
+    | error e => simp [isOk]
+    | ok y =>
+      simp only [bindE_ok]
+      cases hm : mapE g xs with
+      | error e => rw [hm] at ih; simp [isOk] at ih ⊢; exact ih
+      | ok ys => rw [hm] at ih; simp [isOk] at ih ⊢; exact ih
+
+/-- scalars: `p1Scalar` (validate without the sign mixin) is exactly `deser` rejecting, for every
+    scalar declaration and every non-None document value -/
+theorem p1Scalar_eq_deser (O : Oracles) (opts : DeserOpts) (f : FieldDecl) (v : PyVal)
+    (hs : isScalarDecl f = true) :
+    p1Scalar O f v = !isOk (deser O opts false f v) := by
+  cases f <;> simp only [isScalarDecl, Bool.false_eq_true] at hs <;>
+    simp only [p1Scalar, stripSign, validate, deser, Bool.and_false, Bool.false_eq_true, if_false,
+      isOk_dValidated, noSign]
+  case enumCls cls names =>
+    cases v <;> simp only [dEnumCls, vEnumCls, isOk_dValidated]
+
+/-- some element is rejected by the item field, in both models -/
+theorem p1_elems_eq_deser (O : Oracles) (opts : DeserOpts) (item : FieldDecl) (xs : List PyVal)
+    (hs : isScalarDecl item = true) :
+    xs.any (p1Scalar O item) = !isOk (toValueErr (mapE (deser O opts false item) xs)) := by
+  have h2 : isOk (toValueErr (mapE (deser O opts false item) xs)) =
+      xs.all fun x => isOk (deser O opts false item x) := by
+    rw [isOk_toValueErr]; exact isOk_mapE _ xs
+  rw [h2]
+  cases h3 : (xs.all fun x => isOk (deser O opts false item x)) with
+  | true =>
+    show xs.any (p1Scalar O item) = false
+    rw [List.any_eq_false]
+    intro x hx
+    have hx' := (List.all_eq_true.1 h3) x hx
+    rw [p1Scalar_eq_deser O opts item x hs, hx']; simp
+  | false =>
+    show xs.any (p1Scalar O item) = true
+    obtain ⟨x, hx, hb⟩ := List.all_eq_false.1 h3
+    rw [List.any_eq_true]
+    exact ⟨x, hx, by rw [p1Scalar_eq_deser O opts item x hs]; simpa using hb⟩
+
+/-- Array / Deque / Tuple[X] of scalars: the flat phase-one model `p1Rejects` and `deser` agree on
+    every document value -/
+theorem p1Rejects_homog_eq_deser (O : Oracles) (opts : DeserOpts) (item : FieldDecl) (v : PyVal)
+    (hs : isScalarDecl item = true) :
+    (∀ k sz, p1Rejects O (.seqOf k item sz) v = !isOk (deser O opts false (.seqOf k item sz) v)) ∧
+    (∀ u, p1Rejects O (.tupleOf item u) v = !isOk (deser O opts false (.tupleOf item u) v)) := by
+  have hl : listLike v = docSeq v := by cases v <;> rfl
+  constructor
+  · intro k sz
+    simp only [p1Rejects, deser, Bool.and_false, Bool.false_eq_true, if_false, dSeq, hl]
+    cases docSeq v with
+    | none => rfl
+    | some xs =>
+      simp only [p1_elems_eq_deser O opts item xs hs]
+      cases toValueErr (mapE (deser O opts false item) xs) <;> rfl
+  · intro u
+    simp only [p1Rejects, deser, Bool.and_false, Bool.false_eq_true, if_false, dSeq, hl]
+    cases docSeq v with
+    | none => rfl
+    | some xs =>
+      simp only [p1_elems_eq_deser O opts item xs hs]
+      cases toValueErr (mapE (deser O opts false item) xs) <;> rfl
+
+
+
+/-! ### collect-all deserialization at any depth: what phase one reports is sound, and complete
+    exactly when no supplied field is rejected by the constructor alone -/
+
+/-- the supplied fields only the constructor rejects (phase one accepts the document value, the
+    constructor rejects what phase one made of it) -/
+def ctorOnlyInvalid (O : Oracles) (opts : DeserOpts) (ign : Bool) (doc : List (String × PyVal))
+    (fields : List (String × FieldDecl)) : List String :=
+  fields.filterMap fun nf =>
+    match lookup nf.1 doc with
+    | none => none
+    | some v => if v.isNone then none else
+      match deser O opts ign nf.2 v with
+      | .ok y => if isOk (validate O nf.2 y) then none else some nf.1
+      | .error _ => none
+
+theorem p1SiteD_top (O : Oracles) (opts : DeserOpts) (ign : Bool) (scr : List (Option String))
+    (name : String) (f : FieldDecl) (v : PyVal) (s : P1Site) (h : p1SiteD O opts ign scr name f v = some s) :
+    s.top = name :=
+  (p1SiteD_names_own_field O opts ign scr name f v s h).2.1
+
+/-- SOUND at any depth: every field collect-all deserialization reports from its first phase is an
+    invalid supplied field (for classes without flat fields the two phase-one models coincide by
+    definition; flat fields use `p1Rejects`, tied to `deser` by `p1Rejects_homog_eq_deser` and the
+    driver's cross-check) — stated for the `deser`-based part -/
+theorem deep_phase_one_sound (O : Oracles) (opts : DeserOpts) (ign : Bool)
+    (doc : List (String × PyVal)) (fields : List (String × FieldDecl)) (n : String)
+    (hn : n ∈ fields.filterMap fun nf =>
+      match lookup nf.1 doc with
+      | none => none
+      | some v => if v.isNone then none else
+        match deser O opts ign nf.2 v with
+        | .ok _ => none
+        | .error _ => some nf.1) :
+    n ∈ deserInvalid O opts ign doc fields := by
+  simp only [List.mem_filterMap] at hn
+  obtain ⟨nf, hnf, h⟩ := hn
+  simp only [deserInvalid, List.mem_filterMap]
+  refine ⟨nf, hnf, ?_⟩
+  cases hl : lookup nf.1 doc with
+  | none => simp [hl] at h
+  | some v =>
+    simp only [hl] at h ⊢
+    split
+    · rename_i hv; simp [hv] at h
+    · rename_i hv
+      simp only [hv] at h
+      cases hd : deser O opts ign nf.2 v with
+      | ok y => simp [hd] at h
+      | error e => simpa [hd] using h
+
+/-- EXACT at any depth: the invalid supplied fields are those phase one rejects together with those
+    only the constructor rejects; so the first phase alone reports all of them iff the latter set
+    is empty (the two-phase finding, for every declaration) -/
+theorem deserInvalid_nil_ctorOnly (O : Oracles) (opts : DeserOpts) (ign : Bool)
+    (doc : List (String × PyVal)) (fields : List (String × FieldDecl)) (n : String) :
+    n ∈ deserInvalid O opts ign doc fields ↔
+      (n ∈ fields.filterMap fun nf =>
+        match lookup nf.1 doc with
+        | none => none
+        | some v => if v.isNone then none else
+          match deser O opts ign nf.2 v with
+          | .ok _ => none
+          | .error _ => some nf.1) ∨ n ∈ ctorOnlyInvalid O opts ign doc fields := by
+  simp only [deserInvalid, ctorOnlyInvalid, List.mem_filterMap]
+  constructor
+  · rintro ⟨nf, hnf, h⟩
+    cases hl : lookup nf.1 doc with
+    | none => simp [hl] at h
+    | some v =>
+      simp only [hl] at h
+      by_cases hv : v.isNone = true
+      · simp [hv] at h
+      · simp only [hv] at h
+        cases hd : deser O opts ign nf.2 v with
+        | ok y => right; exact ⟨nf, hnf, by simpa [hl, hv, hd] using h⟩
+        | error e => left; exact ⟨nf, hnf, by simpa [hl, hv, hd] using h⟩
+  · rintro (⟨nf, hnf, h⟩ | ⟨nf, hnf, h⟩)
+    · refine ⟨nf, hnf, ?_⟩
+      cases hl : lookup nf.1 doc with
+      | none => simp [hl] at h
+      | some v =>
+        simp only [hl] at h ⊢
+        by_cases hv : v.isNone = true
+        · simp [hv] at h
+        · simp only [hv] at h ⊢
+          cases hd : deser O opts ign nf.2 v with
+          | ok y => simp [hd] at h
+          | error e => simpa [hd] using h
+    · refine ⟨nf, hnf, ?_⟩
+      cases hl : lookup nf.1 doc with
+      | none => simp [hl] at h
+      | some v =>
+        simp only [hl] at h ⊢
+        by_cases hv : v.isNone = true
+        · simp [hv] at h
+        · simp only [hv] at h ⊢
+          cases hd : deser O opts ign nf.2 v with
+          | ok y => simpa [hd] using h
+          | error e => simp [hd] at h
+
+/-- the two-phase finding at depth: `arr: Array[Array[PositiveInt]]` given `[[1, -1]]` (only the
+    constructor's sign check rejects it) next to `s: String` given `5` -/
+theorem two_phase_deep_example :
+    let O : Oracles := exOracles
+    let fields : List (String × FieldDecl) :=
+      [("arr", .seqOf .list (.seqOf .list (.integer { sign := .pos }) {}) {}), ("s", .string none none none)]
+    let doc : List (String × PyVal) := [("arr", .list [.list [.int 1, .int (-1)]]), ("s", .int 5)]
+    deserInvalid O {} false doc fields = ["arr", "s"] ∧
+    (p1SitesD O {} false [] doc fields).map (·.top) = ["s"] ∧
+    ctorOnlyInvalid O {} false doc fields = ["arr"] ∧
+    (locate O (.seqOf .list (.seqOf .list (.integer { sign := .pos }) {}) {})
+      (.list [.list [.int 1, .int (-1)]])).suffix.text = "_0_1".toList := by
+  decide
+
+
+
+/-! ### nested and inline structures name the field that holds them (after /repo 8de2ad2, 3e97bbb) -/
+
+/-- the former counterexamples, kernel-checked on the model of today's code: `Outer(sr={'a': 'x'})`
+    for an inline `sr: StructureReference(a=Integer)` is reported under `Outer.sr` (plain shape: the
+    embedded class's own message is the problem text), also as an element of an Array (`arr_1`); the
+    helper recovers `Outer.sr` from the real text; deserializing `{'inner': {'x': 'a'}}` for a class
+    reference is reported under `inner` -/
+theorem fixed_nested_structure_examples :
+    let O : Oracles := exOracles
+    let sr : FieldDecl := .struct { name := "StructureReference_0", required := [], inline := true } [("a", .integer {})] []
+    let inner : FieldDecl := .struct { name := "Inner", required := [], accepts := ["Inner"] } [("x", .integer {})] []
+    let c : ClassOpts := { name := "Outer", required := [] }
+    let bad : PyVal := .dict [(.str "a", .str "x")]
+    ((sites O c [("sr", bad)] [("sr", sr)]).map fun s => (s.path, s.loc.shape)) = [("sr".toList, Shape.plain)] ∧
+    ((sites O c [("arr", .list [.dict [(.str "a", .int 1)], bad])] [("arr", .seqOf .list sr {})]).map
+        fun s => (s.path, s.loc.shape)) = [("arr_1".toList, Shape.plain)] ∧
+    (parseMsg asciiWord "Outer.sr: StructureReference_0.a: Expected <class 'int'>; Got 'x'".toList).field
+      = some "Outer.sr".toList ∧
+    (parseMsg asciiWord "Outer.sr: [\"StructureReference_0.a: Expected <class 'int'>; Got 'x'\"]".toList).field
+      = some "Outer.sr".toList ∧
+    p1SiteD O {} false [] "inner" inner (.dict [(.str "x", .str "a")]) =
+      some ⟨"inner", .named, some "inner".toList, .typeErr⟩ ∧
+    p1SiteD O {} false [] "sr" sr bad = some ⟨"sr", .named, some "sr: Got ".toList, .valueErr⟩ := by
   decide
 
 
